@@ -6,6 +6,7 @@ package e2
 import (
 	"fmt"
 	"strings"
+	"sync"
 	"time"
 
 	"github.com/aukilabs/hagall-common/messages/hagallpb"
@@ -377,4 +378,229 @@ func G6SameKeyActionWriters(p *sut.Proc) *Result {
 				Detail: fmt.Sprintf("two accepted writes to one (entity, action name) from different connections: the witness received the relays in the order %v, so its view ends with %q, while the server (state handed to a probe) holds %q", order, order[len(order)-1], server)})
 		}
 	})
+}
+
+// G4: the creator of a session is held inside its first module's Init, just
+// before it registers the module state it created (Session.SetModuleState);
+// its join response has already been sent, so a second client can join by id
+// and run its own Init meanwhile. If get-or-create of the module state is not
+// atomic, the two connections end up with two different states.
+func G4ModuleStateRace(p *sut.Proc) *Result {
+	return run("G4 module state get-or-create", func(r *Result) {
+		const trig = "creator Init x joiner Init"
+		// the creator is held where its module state is about to be registered:
+		// SetModuleState (lookup and registration in two steps) or the entry of
+		// an atomic get-or-create, whichever this tree has
+		sites := []string{"models.Session.SetModuleState", "models.Session.ModuleStateOrSet"}
+		for _, s := range sites {
+			rt(p, "op=hold&site="+s+"&max=1")
+		}
+		defer p.RT("op=reset")
+		cr := scen.MustDial(p, "vod")
+		defer cr.Close()
+		id := cr.NextReqID()
+		must(cr.Send(&hagallpb.ParticipantJoinRequest{Type: d.TJoinReq, Timestamp: d.NewTag(), RequestId: id}))
+		reached := ""
+		for round := 0; round < 400 && reached == ""; round++ {
+			h, err := p.RTHits()
+			must(err)
+			for _, s := range sites {
+				if h.Parked[s] >= 1 {
+					reached = s
+				}
+			}
+			if reached == "" {
+				time.Sleep(5 * time.Millisecond)
+			}
+		}
+		if reached == "" {
+			r.Inconclusive = "G4: the creator never reached the registration of its module state"
+			return
+		}
+		r.GateReached = true
+		// the join response was sent before Init: read it without a barrier
+		ev, _, err := func() (*d.Event, []*d.Event, error) {
+			var hit *d.Event
+			before, err := cr.WaitFor(func(e *d.Event) bool {
+				if e.Type == d.TJoinResp {
+					hit = e
+					return true
+				}
+				return false
+			})
+			return hit, before, err
+		}()
+		must(err)
+		sid := ev.M.(*hagallpb.ParticipantJoinResponse).SessionId
+		j := scen.MustDial(p, "vod")
+		defer j.Close()
+		jr, _, err := j.Join(sid)
+		must(err)
+		if jr == nil {
+			r.Inconclusive = "G4: the second client could not join by id"
+			return
+		}
+		for _, s := range sites {
+			rt(p, "op=release&site="+s)
+		}
+		cr.Barrier()
+		r.Signature = "creator held at " + reached + " < joiner's Init complete < creator released"
+		// both write module state on their own entities
+		ce, err := cr.AddEntity(true, 1)
+		must(err)
+		je, err := j.AddEntity(true, 2)
+		must(err)
+		a1, err := cr.Action(ce, "by-creator", 1_700_000_001, "c")
+		must(err)
+		a2, err := j.Action(je, "by-joiner", 1_700_000_002, "j")
+		must(err)
+		if a1 == nil || a1.Type == d.TError || a2 == nil || a2.Type == d.TError {
+			r.Inconclusive = fmt.Sprint("G4: an action was refused: ", a1, a2)
+			return
+		}
+		b1, err := cr.AddAsset(ce, "asset-c")
+		must(err)
+		b2, err := j.AddAsset(je, "asset-j")
+		must(err)
+		_, _ = b1, b2
+		snap, err := scen.Probe(p, sid, "vod")
+		must(err)
+		acts := map[string]bool{}
+		for _, a := range snap.Vikja.GetEntityActions() {
+			acts[a.Name] = true
+		}
+		assets := map[string]bool{}
+		for _, a := range snap.Odal.GetAssetInstances() {
+			assets[a.AssetId] = true
+		}
+		if !acts["by-creator"] || !acts["by-joiner"] {
+			r.Findings = append(r.Findings, f([]string{"C16", "C01"}, "module-state/split", trig,
+				"both participants' entity actions were accepted, but a newcomer is handed only %v: the two connections hold different module states", acts))
+		}
+		if !assets["asset-c"] || !assets["asset-j"] {
+			r.Findings = append(r.Findings, f([]string{"C16", "C01"}, "module-state/split", trig,
+				"both participants' asset instances were accepted, but a newcomer is handed only %v", assets))
+		}
+	})
+}
+
+// G3c: the last departure of one session overlaps the creation of another. The
+// leaver is held just before SessionStore.Remove takes the store lock; a new
+// session is created meanwhile; then the leaver is released. The new session
+// must still be findable under its id afterwards.
+func G3cLastLeaveVsCreate(p *sut.Proc) *Result {
+	return run("G3c last departure x creation", func(r *Result) {
+		const trig = "last departure x creation"
+		const site = "models.SessionStore.Remove%23lock1"
+		ms, err := p.Metrics()
+		must(err)
+		base := ms["session_count"]
+		l := scen.MustDial(p, "vod")
+		defer l.Close()
+		_, _, err = l.Join("")
+		must(err)
+		rt(p, "op=hold&site="+site)
+		defer p.RT("op=reset")
+		l.Close()
+		if !gateWait(p, site, 1) {
+			r.Inconclusive = "G3c: the leaver never reached the lock of SessionStore.Remove"
+			return
+		}
+		r.GateReached = true
+		cr := scen.MustDial(p, "vod")
+		defer cr.Close()
+		// the creation must not need the held lock before the leaver took it: it is issued without waiting
+		id := cr.NextReqID()
+		must(cr.Send(&hagallpb.ParticipantJoinRequest{Type: d.TJoinReq, Timestamp: d.NewTag(), RequestId: id}))
+		time.Sleep(20 * time.Millisecond) // let the creator run as far as it can (no verdict depends on it)
+		rt(p, "op=release&site="+site)
+		win, err := cr.Barrier()
+		must(err)
+		var jr *hagallpb.ParticipantJoinResponse
+		for _, e := range win {
+			if m, ok := e.M.(*hagallpb.ParticipantJoinResponse); ok && m.RequestId == id {
+				jr = m
+			}
+		}
+		if jr == nil {
+			r.Findings = append(r.Findings, f([]string{"C07", "C04"}, "join/not-answered", trig, "the creation that overlapped a last departure was not answered with success: %v", win))
+			return
+		}
+		ok, err := scen.Departed(p, l, 8*time.Second)
+		must(err)
+		if !ok {
+			r.Findings = append(r.Findings, f([]string{"C07", "C09"}, "liveness/handler-never-returned", trig, "the leaver's handler never returned"))
+			return
+		}
+		r.Signature = fmt.Sprintf("leaver before store lock < create(%s) < unregister(old %s)", jr.SessionId, l.SID)
+		snap, err := scen.Probe(p, jr.SessionId, "vod")
+		must(err)
+		cr.Barrier()
+		if !snap.Found || snap.Join.SessionUuid != jr.SessionUuid {
+			r.Findings = append(r.Findings, f([]string{"C07", "C10"}, "registry/live-session-unregistered", trig,
+				"a session created while the last departure of another session (id %s) was in progress got id %s uuid %s and cannot be found afterwards (found=%v code=%d)", l.SID, jr.SessionId, jr.SessionUuid, snap.Found, snap.Code))
+			return
+		}
+		r.Findings = append(r.Findings, registryQuiescent(p, base, 1, trig)...)
+	})
+}
+
+// RegistryStorm: connections create sessions, have a second connection join
+// each by id right away, and end them, all at once (free-running or
+// jittered). A session that has a member must be findable under its id.
+func RegistryStorm(p *sut.Proc, pairs, rounds int) (created int, findings []*check.Finding, inconclusive []string) {
+	var mu sync.Mutex
+	var wg sync.WaitGroup
+	start := make(chan struct{})
+	ms, err := p.Metrics()
+	if err != nil {
+		return 0, nil, []string{err.Error()}
+	}
+	base := ms["session_count"]
+	for i := 0; i < pairs; i++ {
+		wg.Add(1)
+		go func(i int) {
+			defer wg.Done()
+			defer func() {
+				if x := recover(); x != nil {
+					mu.Lock()
+					inconclusive = append(inconclusive, fmt.Sprint("registry storm: ", x))
+					mu.Unlock()
+				}
+			}()
+			<-start
+			for k := 0; k < rounds; k++ {
+				a := scen.MustDial(p, "")
+				b := scen.MustDial(p, "")
+				jr, _, err := a.Join("")
+				must(err)
+				if jr == nil {
+					panic("creation refused")
+				}
+				jb, ev, err := b.Join(jr.SessionId)
+				must(err)
+				mu.Lock()
+				created++
+				if jb == nil {
+					code, _ := scen.IsErr(ev)
+					findings = append(findings, f([]string{"C07"}, "registry/live-session-not-findable", "create-join-end storm",
+						"a session that was just created (id %s uuid %s) and whose creator is still a member could not be joined by id (error %d)", jr.SessionId, jr.SessionUuid, code))
+				} else if jb.SessionUuid != jr.SessionUuid {
+					findings = append(findings, f([]string{"C07", "C10"}, "registry/id-names-another-session", "create-join-end storm",
+						"joining id %s right after creating it (uuid %s) landed in uuid %s", jr.SessionId, jr.SessionUuid, jb.SessionUuid))
+				}
+				mu.Unlock()
+				a.Close()
+				b.Close()
+				scen.Departed(p, a, 8*time.Second)
+				scen.Departed(p, b, 8*time.Second)
+			}
+		}(i)
+	}
+	close(start)
+	wg.Wait()
+	if len(findings) == 0 {
+		findings = append(findings, registryQuiescent(p, base, 0, "create-join-end storm")...)
+	}
+	return
 }
